@@ -30,9 +30,9 @@ var edges = map[string]bool{
 	"STANDBY>DONE": true, "DEPLOYED>DONE": true, "CONFIGURED>DONE": true, "RUNNING>DONE": true, "ERROR>DONE": true,
 }
 
-var legalFrom = map[string]string{"CONFIGURE": "DEPLOYED", "START_ACTIVITY": "CONFIGURED", "STOP_ACTIVITY": "RUNNING", "RESET": "CONFIGURED"}
-var destOf = map[string]string{"CONFIGURE": "CONFIGURED", "START_ACTIVITY": "RUNNING", "STOP_ACTIVITY": "CONFIGURED", "RESET": "DEPLOYED"}
-var opType = map[string]pb.ControlEnvironmentRequest_Optype{"CONFIGURE": pb.ControlEnvironmentRequest_CONFIGURE, "START_ACTIVITY": pb.ControlEnvironmentRequest_START_ACTIVITY,
+var legalFrom = map[string]string{"DEPLOY": "STANDBY", "CONFIGURE": "DEPLOYED", "START_ACTIVITY": "CONFIGURED", "STOP_ACTIVITY": "RUNNING", "RESET": "CONFIGURED"}
+var destOf = map[string]string{"DEPLOY": "DEPLOYED", "CONFIGURE": "CONFIGURED", "START_ACTIVITY": "RUNNING", "STOP_ACTIVITY": "CONFIGURED", "RESET": "DEPLOYED"}
+var opType = map[string]pb.ControlEnvironmentRequest_Optype{"DEPLOY": pb.ControlEnvironmentRequest_DEPLOY, "CONFIGURE": pb.ControlEnvironmentRequest_CONFIGURE, "START_ACTIVITY": pb.ControlEnvironmentRequest_START_ACTIVITY,
 	"STOP_ACTIVITY": pb.ControlEnvironmentRequest_STOP_ACTIVITY, "RESET": pb.ControlEnvironmentRequest_RESET, "GO_ERROR": pb.ControlEnvironmentRequest_GO_ERROR, "NOOP": pb.ControlEnvironmentRequest_NOOP}
 
 type sys struct {
@@ -43,17 +43,20 @@ type sys struct {
 	seenEv    int
 	lastState string
 	hookFails string // tag of the critical call made to fail during the current request
+	// samples: the state GetEnvironment reports at every quiescent moment of the execution (an API client
+	// polling while the core waits for a timer), consecutive duplicates removed; "(gone)" = id unknown
+	samples []string
 }
 
 func (s *sys) fail(clause, f string, a ...any) {
 	s.viol = append(s.viol, vrt.Violation{Clause: clause, Detail: fmt.Sprintf(f, a...)})
 }
 
-func newSys() *sys { return newSysWF("c01") }
+func newSys() *sys { return newSysWF("c01", nil) }
 
 // newSysWF: c01 = hooks before/after every transition; c01h = additionally a critical call at negative and
 // positive weights of every moment (used by the request search, which fails them on demand)
-func newSysWF(wf string) *sys {
+func newSysWF(wf string, vars map[string]string) *sys {
 	s := &sys{lastState: "PENDING"}
 	m := coresim.NewMaster(agents()...)
 	m.Behaviour = func(t *coresim.SimTask, kind string) coresim.Outcome {
@@ -63,7 +66,7 @@ func newSysWF(wf string) *sys {
 		return coresim.OK
 	}
 	s.w = coresim.NewWorld(m)
-	id, _, err := s.w.Create(wf, nil)
+	id, _, err := s.w.Create(wf, vars)
 	if err != nil {
 		return nil // the environment could not be created on this schedule (see C06 known finding): trivial execution
 	}
@@ -103,7 +106,7 @@ func (s *sys) control(ev string, taskFails bool) {
 		}
 		return
 	}
-	calls0, msgs0 := len(coresim.CallLog), len(s.w.M.CallsOf("MESSAGE"))
+	calls0, msgs0, launches0 := len(coresim.CallLog), len(s.w.M.CallsOf("MESSAGE")), s.launches()
 	s.failNext = taskFails
 	st, err := s.w.Control(s.id, opType[ev])
 	s.failNext = false
@@ -129,10 +132,14 @@ func (s *sys) control(ev string, taskFails bool) {
 			s.fail("illegal-request-succeeded:"+ev+":from="+before, "%s", ctx)
 		}
 		for _, h := range hooks {
-			if strings.HasSuffix(h, "_"+ev) {
+			// before_<ev> / after_<ev> hooks of any weight, and the hooks of entering its destination (the GO_ERROR that follows enters ERROR only)
+			if tr := h[strings.Index(h, "@")+1:]; strings.HasPrefix(tr, "before_"+ev) || strings.HasPrefix(tr, "after_"+ev) || strings.HasPrefix(tr, "enter_"+destOf[ev]) {
 				s.fail("illegal-request-ran-hooks:"+ev+":from="+before, "%s", ctx)
 				break
 			}
+		}
+		if n := s.launches() - launches0; n > 0 {
+			s.fail("illegal-request-sent-task-command:"+ev+":from="+before, "%s: %d tasks launched", ctx, n)
 		}
 		for _, c := range msgs {
 			if c.Detail != "STOP" || before != "ERROR" { // the error path may stop still-running tasks
@@ -167,9 +174,26 @@ func (s *sys) control(ev string, taskFails bool) {
 	s.graphMonitor(ev)
 }
 
-func (s *sys) destroy(force, allowRun, keep bool) {
-	_, errB := s.w.EnvState(s.id)
+// launches: number of tasks the core has asked the master to launch so far
+func (s *sys) launches() (n int) {
+	for _, c := range s.w.M.CallsOf("ACCEPT") {
+		k := 0
+		if i := strings.LastIndex(c.Detail, "tasks="); i >= 0 {
+			fmt.Sscanf(c.Detail[i+6:], "%d", &k)
+		}
+		n += k
+	}
+	return
+}
+
+// destroy: one DestroyEnvironment request; taskFails = the task answers the transition the request performs on
+// the way (RESET from CONFIGURED, STOP with allowInRunningState) with an error
+func (s *sys) destroy(force, allowRun, keep, taskFails bool) {
+	before, errB := s.w.EnvState(s.id)
+	msgs0 := len(s.w.M.CallsOf("MESSAGE"))
+	s.failNext = taskFails
 	err := s.w.Destroy(s.id, force, allowRun, keep)
+	s.failNext = false
 	vrt.Quiesce("after-destroy")
 	if errB != nil {
 		if err == nil {
@@ -178,6 +202,13 @@ func (s *sys) destroy(force, allowRun, keep bool) {
 		return
 	}
 	s.graphMonitorDone(err)
+	if taskFails && len(s.w.M.CallsOf("MESSAGE")) > msgs0 {
+		// a transition of this request failed: like any failed transition requested through the API it must not
+		// leave the environment sitting in a healthy state (ERROR, or torn down)
+		if now, gerr := s.w.EnvState(s.id); gerr == nil && now != "ERROR" && now != "DONE" {
+			s.fail("failed-transition-in-destroy-left-state:"+now+":from="+before, "destroy(force=%v allowRunning=%v) with the task failing its command: err=%v", force, allowRun, err != nil)
+		}
+	}
 }
 
 func (s *sys) graphMonitorDone(err error) {
@@ -209,10 +240,12 @@ func (s *sys) key() string {
 	return st + "|" + ts
 }
 
-var ops = []string{"CONFIGURE", "CONFIGURE!", "START_ACTIVITY", "START_ACTIVITY!", "STOP_ACTIVITY", "STOP_ACTIVITY!", "RESET", "RESET!", "GO_ERROR", "NOOP", "destroy", "destroyForce", "destroyAllowRunning", "destroyKeep"}
+var ops = []string{"CONFIGURE", "CONFIGURE!", "START_ACTIVITY", "START_ACTIVITY!", "STOP_ACTIVITY", "STOP_ACTIVITY!", "RESET", "RESET!", "GO_ERROR", "NOOP", "destroy", "destroyForce", "destroyAllowRunning", "destroyKeep",
+	"DEPLOY", "destroy!", "destroyAllowRunning!"}
 
-// hook sites at which a critical call can be made to fail: "<EV>?<site>" requests EV with that hook failing
-var hookSites = []string{"before-5", "leave+5", "enter-5", "enter+5", "after-5"}
+// hook sites at which a critical call can be made to fail: "<EV>?<site>" requests EV with that hook failing.
+// Every moment of a transition with a negative and a positive weight (the two passes are separate code in every callback).
+var hookSites = []string{"before-5", "before+5", "leave-5", "leave+5", "enter-5", "enter+5", "after-5", "after+5"}
 
 func init() {
 	for _, ev := range []string{"CONFIGURE", "START_ACTIVITY", "STOP_ACTIVITY", "RESET"} {
@@ -239,7 +272,9 @@ func hookTrigger(ev, site string) string {
 func (s *sys) apply(op string) {
 	switch {
 	case strings.HasPrefix(op, "destroy"):
-		s.destroy(op == "destroyForce", op == "destroyAllowRunning", op == "destroyKeep")
+		fails := strings.HasSuffix(op, "!")
+		op = strings.TrimSuffix(op, "!")
+		s.destroy(op == "destroyForce", op == "destroyAllowRunning", op == "destroyKeep", fails)
 	case strings.Contains(op, "?"):
 		i := strings.Index(op, "?")
 		tag := "k-" + hookTrigger(op[:i], op[i+1:])
@@ -257,7 +292,7 @@ func execHistory(hist []int) (key string, applicable bool, viol []vrt.Violation)
 	coresim.ResetStore()
 	var s *sys
 	x := vrt.RunControlled(cfg, func() {
-		s = newSysWF("c01h")
+		s = newSysWF("c01h", nil)
 		if s == nil {
 			panic("setup failed on the default schedule")
 		}
@@ -289,23 +324,44 @@ type conc struct {
 	// (the core stops the run itself and the watcher schedules its delayed GO_ERROR); slowStop: the
 	// before_STOP_ACTIVITY call takes a virtual second, so the watcher's timer lands inside the STOP
 	internalErr, slowStop bool
+	// c: a third API caller
+	c []string
+	// eos: the task announces END_OF_STREAM (the core itself then requests STOP_ACTIVITY from a goroutine of its
+	// own - a caller that is not an API client)
+	eos bool
+	// autoStop: the environment is created with auto_stop_enabled and this auto_stop_timeout (the core's own timer
+	// requests STOP_ACTIVITY that long after the START); delayA: caller A waits that long before its first request
+	autoStop string
+	delayA   time.Duration
 }
 
 var concs = []conc{
-	{"START||RESET", nil, []string{"START_ACTIVITY"}, []string{"RESET"}, false, false, false},
-	{"START||START", nil, []string{"START_ACTIVITY"}, []string{"START_ACTIVITY"}, false, false, false},
-	{"START||destroy", nil, []string{"START_ACTIVITY"}, []string{"destroyForce"}, false, false, false},
-	{"STOP||destroyAllowRunning", []string{"START_ACTIVITY"}, []string{"STOP_ACTIVITY"}, []string{"destroyAllowRunning"}, false, false, false},
-	{"START!||RESET", nil, []string{"START_ACTIVITY!"}, []string{"RESET"}, false, false, false},
-	{"destroy||destroy", nil, []string{"destroy"}, []string{"destroy"}, false, false, false},
-	{"destroyForce||destroyForce", []string{"START_ACTIVITY"}, []string{"destroyForce"}, []string{"destroyForce"}, false, false, false},
-	{"RESET||destroy", nil, []string{"RESET"}, []string{"destroy"}, false, false, false},
-	{"taskdies||STOP", []string{"START_ACTIVITY"}, []string{"STOP_ACTIVITY"}, nil, true, false, false},
-	{"taskdies||destroy", []string{"START_ACTIVITY"}, []string{"destroyForce"}, nil, true, false, false},
-	{"taskdies-idle", []string{"START_ACTIVITY"}, nil, nil, true, false, false},
-	{"internal-error-slow-stop", []string{"START_ACTIVITY"}, nil, nil, true, true, true},
-	{"internal-error||STOP-slow", []string{"START_ACTIVITY"}, []string{"STOP_ACTIVITY"}, nil, true, true, true},
-	{"taskdies||STOP-slow", []string{"START_ACTIVITY"}, []string{"STOP_ACTIVITY"}, nil, true, false, true},
+	{name: "START||RESET", a: []string{"START_ACTIVITY"}, b: []string{"RESET"}},
+	{name: "START||START", a: []string{"START_ACTIVITY"}, b: []string{"START_ACTIVITY"}},
+	{name: "START||destroy", a: []string{"START_ACTIVITY"}, b: []string{"destroyForce"}},
+	{name: "STOP||destroyAllowRunning", setup: []string{"START_ACTIVITY"}, a: []string{"STOP_ACTIVITY"}, b: []string{"destroyAllowRunning"}},
+	{name: "START!||RESET", a: []string{"START_ACTIVITY!"}, b: []string{"RESET"}},
+	{name: "destroy||destroy", a: []string{"destroy"}, b: []string{"destroy"}},
+	{name: "destroyForce||destroyForce", setup: []string{"START_ACTIVITY"}, a: []string{"destroyForce"}, b: []string{"destroyForce"}},
+	{name: "RESET||destroy", a: []string{"RESET"}, b: []string{"destroy"}},
+	{name: "taskdies||STOP", setup: []string{"START_ACTIVITY"}, a: []string{"STOP_ACTIVITY"}, kill: true},
+	{name: "taskdies||destroy", setup: []string{"START_ACTIVITY"}, a: []string{"destroyForce"}, kill: true},
+	{name: "taskdies-idle", setup: []string{"START_ACTIVITY"}, kill: true},
+	{name: "internal-error-slow-stop", setup: []string{"START_ACTIVITY"}, kill: true, internalErr: true, slowStop: true},
+	{name: "internal-error||STOP-slow", setup: []string{"START_ACTIVITY"}, a: []string{"STOP_ACTIVITY"}, kill: true, internalErr: true, slowStop: true},
+	{name: "taskdies||STOP-slow", setup: []string{"START_ACTIVITY"}, a: []string{"STOP_ACTIVITY"}, kill: true, slowStop: true},
+	// the second caller's request first (one deviation lets the other request arrive at every point of it)
+	{name: "RESET||START", a: []string{"RESET"}, b: []string{"START_ACTIVITY"}},
+	{name: "STOP||START", setup: []string{"START_ACTIVITY"}, a: []string{"STOP_ACTIVITY"}, b: []string{"START_ACTIVITY"}},
+	{name: "CONFIGURE||destroy", setup: []string{"RESET"}, a: []string{"CONFIGURE"}, b: []string{"destroy"}},
+	// three callers
+	{name: "START||RESET||STOP", a: []string{"START_ACTIVITY"}, b: []string{"RESET"}, c: []string{"STOP_ACTIVITY"}},
+	{name: "START||RESET||destroyForce", a: []string{"START_ACTIVITY"}, b: []string{"RESET"}, c: []string{"destroyForce"}},
+	// callers that are not API clients: the STOP_ACTIVITY the core requests itself on END_OF_STREAM / when the auto-stop timer fires
+	{name: "eos||STOP", setup: []string{"START_ACTIVITY"}, a: []string{"STOP_ACTIVITY"}, eos: true},
+	{name: "eos||destroyForce", setup: []string{"START_ACTIVITY"}, a: []string{"destroyForce"}, eos: true},
+	{name: "autostop-slow||destroyForce", setup: []string{"START_ACTIVITY"}, a: []string{"destroyForce"}, slowStop: true, autoStop: "1s", delayA: 1500 * time.Millisecond},
+	{name: "autostop-slow||STOP", setup: []string{"START_ACTIVITY"}, a: []string{"STOP_ACTIVITY"}, slowStop: true, autoStop: "1s", delayA: 1500 * time.Millisecond},
 }
 
 func concScenario(c conc, q, t vrt.Bounds) *vrt.Scenario {
@@ -317,10 +373,16 @@ func concScenario(c conc, q, t vrt.Bounds) *vrt.Scenario {
 		NonTrivial: func(*vrt.Exec) bool { return done > 0 },
 		Body: func() {
 			rets, done = nil, 0
-			s = newSys()
+			var vars map[string]string
+			if c.autoStop != "" {
+				vars = map[string]string{"auto_stop_enabled": "true", "auto_stop_timeout": c.autoStop}
+			}
+			delete(coresim.CallDelay, "b-STOP_ACTIVITY")
+			s = newSysWF("c01", vars)
 			if s == nil {
 				return
 			}
+			vrt.OnIdle(s.sample)
 			for _, op := range c.setup {
 				s.apply(op)
 			}
@@ -337,6 +399,9 @@ func concScenario(c conc, q, t vrt.Bounds) *vrt.Scenario {
 				}
 				wg.Add(1)
 				vrt.GoFG(name, func() {
+					if name == "callerA" && c.delayA > 0 {
+						vrt.Sleep(c.delayA)
+					}
 					for _, op := range opl {
 						var err error
 						var st string
@@ -347,6 +412,7 @@ func concScenario(c conc, q, t vrt.Bounds) *vrt.Scenario {
 							st, err = s.w.Control(s.id, opType[strings.TrimSuffix(op, "!")])
 						}
 						rets = append(rets, fmt.Sprintf("%s:%s:%v", op, st, err != nil))
+						s.sample()
 					}
 					done++
 					wg.Done()
@@ -354,6 +420,23 @@ func concScenario(c conc, q, t vrt.Bounds) *vrt.Scenario {
 			}
 			run("callerA", c.a)
 			run("callerB", c.b)
+			run("callerC", c.c)
+			if c.eos {
+				wg.Add(1)
+				vrt.GoFG("end-of-stream", func() {
+					for _, t := range s.w.M.AliveTasks() {
+						de := event.NewDeviceEvent(event.DeviceEventOrigin{AgentId: mesos.AgentID{Value: t.AgentID},
+							ExecutorId: mesos.ExecutorID{Value: t.ExecutorID}, TaskId: mesos.TaskID{Value: t.ID}}, occpb.DeviceEventType_END_OF_STREAM)
+						de.SetLabels(map[string]string{"detector": "TST", "environmentId": s.id})
+						b, _ := json.Marshal(de)
+						payload := map[string]any{}
+						_ = json.Unmarshal(b, &payload)
+						s.w.M.DeviceEvent(t, payload)
+					}
+					done++
+					wg.Done()
+				})
+			}
 			if c.kill {
 				wg.Add(1)
 				vrt.GoFG("failure", func() {
@@ -378,9 +461,11 @@ func concScenario(c conc, q, t vrt.Bounds) *vrt.Scenario {
 			vrt.Quiesce("settle")
 			vrt.Sleep(3 * time.Second)
 			vrt.Quiesce("settle2")
+			s.sample()
 			s.graphMonitorAll()
 			hooks := coresim.CallLog[hooks0:]
 			s.overlapMonitor()
+			s.sampleMonitor()
 			vrt.Logf("%s rets=%v final=%s hooks=%v", c.name, rets, s.key(), hooks)
 		},
 		Check: func(x *vrt.Exec) []vrt.Violation {
@@ -397,6 +482,9 @@ func concScenario(c conc, q, t vrt.Bounds) *vrt.Scenario {
 			}
 			if (c.name == "START||RESET" || c.name == "START||START") && ok > 1 {
 				out = append(out, vrt.Violation{Clause: "conflicting-requests-both-succeeded:" + c.name, Detail: fmt.Sprint(rets)})
+			}
+			if v := serialMonitor(c, rets, s.finalState()); v != nil {
+				out = append(out, *v)
 			}
 			return out
 		}}
@@ -424,6 +512,11 @@ func (s *sys) overlapMonitor() {
 	for _, e := range s.w.EnvEvents {
 		if e.Env != s.id {
 			continue
+		}
+		// every step of a transition (its hooks, its task commands) lies inside the bracket of that very transition:
+		// a transition executed without the bracket is one that did not take the transition lock
+		if _, fsmEvent := legalFrom[e.Transition]; (fsmEvent || e.Transition == "GO_ERROR") && e.Step != "" && open != e.Transition {
+			s.fail("transition-step-outside-its-bracket:"+e.Transition+"-during-"+open, "step %s (%s) published while the open transition is %q", e.Step, e.Message, open)
 		}
 		switch {
 		case e.Message == "transition starting":
@@ -456,12 +549,154 @@ func (s *sys) graphMonitorAll() {
 			continue
 		}
 		if !edges[s.lastState+">"+e.State] {
-			s.fail("undocumented-state-change:"+s.lastState+">"+e.State, "published by event %+v", e)
+			cl := "undocumented-state-change:" + s.lastState + ">" + e.State
+			if s.lastState == "DONE" {
+				// DONE is terminal: name the request whose event shows the torn-down environment in another state
+				cl += ":published-by-" + e.Transition + "-after-the-teardown"
+			}
+			s.fail(cl, "published by event %+v", e)
 		}
 		s.lastState = e.State
 	}
 	if st, err := s.w.EnvState(s.id); err == nil && st != s.lastState && !edges[s.lastState+">"+st] {
 		s.fail("undocumented-state-change:"+s.lastState+">"+st, "reported by GetEnvironment at the end")
+	}
+}
+
+// sample: what an API client polling GetEnvironment sees right now.
+func (s *sys) sample() {
+	st, err := s.w.EnvState(s.id)
+	if err != nil || st == "" {
+		st = "(gone)"
+	}
+	if n := len(s.samples); n == 0 || s.samples[n-1] != st {
+		s.samples = append(s.samples, st)
+	}
+}
+
+func (s *sys) finalState() string {
+	st, err := s.w.EnvState(s.id)
+	if err != nil || st == "" {
+		return "(gone)"
+	}
+	return st
+}
+
+// sampleMonitor: between two polls any number of transitions may have happened, so what is checked is
+// reachability in the documented graph: ERROR is left only by the teardown, DONE / an unknown id is final,
+// STANDBY is never re-entered.
+func (s *sys) sampleMonitor() {
+	for i := 1; i < len(s.samples); i++ {
+		a, b := s.samples[i-1], s.samples[i]
+		bad := false
+		switch {
+		case a == "(gone)" || a == "DONE":
+			bad = b != "(gone)" && b != "DONE"
+		case a == "ERROR":
+			bad = b != "DONE" && b != "(gone)"
+		case b == "STANDBY" || b == "PENDING":
+			bad = true
+		}
+		if bad {
+			s.fail("reported-state-went-back:"+a+">"+b, "states reported by GetEnvironment at the quiescent moments and after every request: %v", s.samples)
+		}
+	}
+}
+
+// serialMonitor: "concurrent requests are executed one after the other, each one seeing the state left by the
+// previous one". Reference written from the documented graph: a control request is one atomic step (legal in the
+// current state: the state becomes its destination and it succeeds; otherwise it fails and, as a second atomic
+// step, the environment is moved to ERROR). The observed (result per caller, final state) must be the outcome of
+// some interleaving of these steps that keeps every caller's order. Used for the scenarios made of control
+// requests only (no teardown, no failing task, no failure injected).
+func serialMonitor(c conc, rets []string, final string) *vrt.Violation {
+	if c.kill || c.eos || c.autoStop != "" {
+		return nil
+	}
+	var seqs [][]string
+	for _, l := range [][]string{c.a, c.b, c.c} {
+		for _, op := range l {
+			if strings.HasPrefix(op, "destroy") || strings.HasSuffix(op, "!") {
+				return nil
+			}
+		}
+		if len(l) > 0 {
+			seqs = append(seqs, l)
+		}
+	}
+	start := "CONFIGURED"
+	for _, op := range c.setup {
+		if legalFrom[op] != start {
+			return nil
+		}
+		start = destOf[op]
+	}
+	var got []string
+	for _, r := range rets {
+		p := strings.Split(r, ":") // op:replied state:failed
+		got = append(got, p[0]+":"+p[2])
+	}
+	// enumerate the interleavings; a caller is (index of its next request, pending GO_ERROR step)
+	type st struct {
+		state string
+		pos   []int
+		pend  []bool
+		res   string
+	}
+	allowed := map[string]bool{}
+	var walk func(x st)
+	walk = func(x st) {
+		moved := false
+		for i := range seqs {
+			switch {
+			case x.pend[i]:
+				y := st{x.state, append([]int{}, x.pos...), append([]bool{}, x.pend...), x.res}
+				y.pend[i] = false
+				if y.state != "ERROR" && y.state != "DONE" {
+					y.state = "ERROR"
+				}
+				walk(y)
+				moved = true
+			case x.pos[i] < len(seqs[i]):
+				op := seqs[i][x.pos[i]]
+				y := st{x.state, append([]int{}, x.pos...), append([]bool{}, x.pend...), x.res}
+				y.pos[i]++
+				if legalFrom[op] == x.state {
+					y.state = destOf[op]
+					y.res += op + ":false,"
+				} else {
+					y.pend[i] = true
+					y.res += op + ":true,"
+				}
+				walk(y)
+				moved = true
+			}
+		}
+		if !moved {
+			parts := strings.Split(strings.TrimSuffix(x.res, ","), ",")
+			sortStrings(parts)
+			allowed[strings.Join(parts, ",")+" final="+x.state] = true
+		}
+	}
+	walk(st{start, make([]int, len(seqs)), make([]bool, len(seqs)), ""})
+	sortStrings(got)
+	key := strings.Join(got, ",") + " final=" + final
+	if !allowed[key] {
+		var al []string
+		for k := range allowed {
+			al = append(al, k)
+		}
+		sortStrings(al)
+		return &vrt.Violation{Clause: "not-serializable:" + c.name, Detail: fmt.Sprintf("observed %s; outcomes of executing the requests one after the other: %v", key, al)}
+	}
+	return nil
+}
+
+func sortStrings(l []string) {
+	for i := 1; i < len(l); i++ {
+		for j := i; j > 0 && l[j] < l[j-1]; j-- {
+			l[j], l[j-1] = l[j-1], l[j]
+		}
 	}
 }
 
@@ -471,7 +706,7 @@ func callRole(name, trigger string) string {
 
 func main() {
 	var calls []string
-	for _, ev := range []string{"CONFIGURE", "START_ACTIVITY", "STOP_ACTIVITY", "RESET", "GO_ERROR"} {
+	for _, ev := range []string{"DEPLOY", "CONFIGURE", "START_ACTIVITY", "STOP_ACTIVITY", "RESET", "GO_ERROR"} {
 		calls = append(calls, callRole("b-"+ev, "before_"+ev), callRole("a-"+ev, "after_"+ev))
 	}
 	calls = append(calls, callRole("destroy-hook", "DESTROY"))
